@@ -104,17 +104,24 @@ def history_part(ctx, dist):
         # first call: `width` leaves, one of them raising (continue mode -> FAILED result), or an infinite-loop error
         nodes = wide_graph(rng, "f", width, wrap_p=0.0)
         bad = rng.choice(nodes[:-1])
-        bad["fn"] = ["raise", 500]
+        how = rng.choice(["fails", "fails", "pauses"])
+        if how == "fails":
+            bad["fn"] = ["raise", 500]
+        else:
+            # the first call ends PAUSED at an interrupt (PauseExecution is a BaseException: another way out of the run)
+            bad = {"name": "ask", "kind": "interrupt", "inputs": ["fr"], "outputs": ["answer"], "emit": [], "wait_for": [], "defaults": {},
+                   "fn": ["const", None]}
+            nodes.append(bad)
         g1 = {"nodes": nodes, "bound": {}, "entrypoints": None, "selected": None, "name": "first_g"}
         g2 = {"nodes": wide_graph(rng, "s", width, wrap_p=0.0), "bound": {}, "entrypoints": None, "selected": None, "name": "second_g"}
         steps = [(g1, {"x": 1}, k1, None), (g2, {"x": 2}, k2, None)]
         res = run_history(steps, rng.randint(0, 10**6))
         n += 2
-        case = {"history": [{"graph": g1, "max_concurrency": k1, "fails": bad["name"]}, {"graph": g2, "max_concurrency": k2}]}
+        case = {"history": [{"graph": g1, "max_concurrency": k1, how: bad["name"]}, {"graph": g2, "max_concurrency": k2}]}
         (st1, p1), (st2, p2) = res
         dist["history"] = dist.get("history", 0) + 1
         if p1 > k1 or p2 > k2:
-            ctx.violation("oracle", f"after a FAILED run with max_concurrency={k1}, the next call in the same task with max_concurrency={k2} "
+            ctx.violation("oracle", f"after a run with max_concurrency={k1} that {how}, the next call in the same task with max_concurrency={k2} "
                           f"had {p2} bodies in flight (first call: {p1})", case=case)
         elif p2 != min(k2, width):
             ctx.violation("harness", f"history: second call reached {p2} of min({k2},{width}) open bodies", case=case)
